@@ -217,10 +217,25 @@ CHECKS["C09"] = dict(
          "after a callee's write (C09-F2).",
     design_ref="5/C09", engine="GIRMachine")
 
+CHECKS["C05"] = dict(
+    category="model_checking",
+    technique="declarative TLA+ specification of lexical scoping (Scope.tla: python LEGB with global/nonlocal and class-scope skipping, javascript let/var/parameter scoping with hoisting) and of import resolution (Imports.tla: own declarations, from / alias / wildcard / module / package imports, re-export chains, shadowing); TLC computes the selected declaration for every read of every exhaustively enumerated scope configuration and judges what lian bound it to; python's symtable and node are second oracles for the specification",
+    text="Every tree of <= 4 scopes (module, functions, classes; blocks for javascript) x every declaration kind per scope (none, assignment, parameter, global, nonlocal / "
+         "let, var, parameter) with a read of the name in every scope is rendered to source and analysed by lian; the declaration each read was bound to (s2space_p1 "
+         "symbol_id -> declaring statement -> scope) must be the one Resolve selects, must never sit in a sibling or inner scope, and must be `unresolved` exactly "
+         "when no declaration is visible. 32 import projects (from, alias, wildcard, module, package, re-export through one and two hops and under an alias, local "
+         "and later-import shadowing, missing and external names; importer enumerated first and last) are judged by Imports.tla the same way.",
+    note="One name per configuration, reads after the declarations of their scope, `global` only when the module declares the name. Resolve agreed with symtable on all "
+         "2357 python and with node (values observed at run time) on all 5638 javascript configurations of the thorough tier. Six open findings (class scope visible "
+         "from nested code, global in a nested function, javascript block scoping, wildcard / aliased re-export / repeated imports).",
+    design_ref="5/C05", engine="Scope")
+
 NOT_YET = {
 }
 
 ENGINES = [
+    dict(name="Scope", path="specs/Scope.tla specs/Imports.tla harness/c05.py harness/lianrun.py",
+         serves_properties=["C05"], kind_free_text="declarative TLA+ scoping and import rules evaluated by TLC over exhaustively enumerated configurations, judged against lian's bindings"),
     dict(name="Scheduler", path="specs/Scheduler.tla specs/SchedulerTrace.tla harness/c13.py harness/schedtrace.py harness/schedgen.py harness/lianrun.py",
          serves_properties=["C13"], kind_free_text="TLA+ design model (safety bounds + liveness) + trace spec over recorded scheduler events, TLC"),
     dict(name="TaintRules", path="specs/TaintRules.tla harness/c11.py harness/taintgen.py harness/girjson.py harness/lianrun.py",
